@@ -145,18 +145,23 @@ claim("C08",
       "trusted: as C10",
       "DESIGN.md section 2 C08")
 claim("C02",
-      "product reachability search over the abstract transition systems (node x collected PDU/indication bits) for every nominal scenario; backward reachability of idle",
+      "reachability search over each abstract transition system (node x collected PDU/indication bits) for every nominal scenario, backward reachability of idle, and reachability of joint completion in the product of both transition systems over an abstract link",
       "Decides necessary conditions only: for 16 scenarios ({file, metadata-only} x {unacknowledged, with closure, acknowledged, acknowledged with closure} x both handlers) the "
       "nominal fault-free trace - expected PDUs, exactly the successful Transaction-Finished indication, no fault callback, no exception, back to idle - is a path of the ATS, and "
-      "idle is reachable from every reachable abstract state. Because the ATS over-approximates the handlers, a missing path or a trap is a definite defect; the presence of the path "
-      "does not prove completion for every size, width or pacing.",
+      "idle is reachable from every reachable abstract state; entity ids and sequence numbers are compared by value at admission; Metadata acceptance creates or truncates exactly "
+      "once; and - in the PRODUCT of the two transition systems over a lossless in-order abstract link - successful completion of both sides is reachable for all 8 shape x mode "
+      "combinations. Because the ATS over-approximates the handlers, a missing path or a trap is a definite defect; the presence of the path does not prove completion for every "
+      "size, width or pacing.",
       "trusted: as C10",
       "DESIGN.md section 2 C02")
 claim("C03",
-      "acceptance matrix (step x retransmitted PDU kind) read from the abstract transition systems",
+      "acceptance matrix (step x retransmitted PDU kind) read from the abstract transition systems; reachability analysis in the product of the two abstract transition systems with single-PDU drops",
       "Recovery under bounded faults is a liveness property of two communicating machines and is NOT decided. Decided is one structural necessary condition: which step accepts "
       "which retransmitted PDU - re-sent EOF acknowledged in every destination step after the first EOF, valid NAK served in the three source steps, Metadata / File Data consumed "
-      "in the two deferred waits, Finished accepted while the EOF is unacknowledged. On the pinned tree the EOF cells fail (recorded: one lost ACK(EOF) is unrecoverable).",
+      "in the two deferred waits, Finished accepted while the EOF is unacknowledged - and a second, end-to-end one: in the product of the two transition systems over an abstract "
+      "link, under the property's premise that no expiration limit is reached, successful completion stays reachable after dropping any single PDU at any point of an acknowledged "
+      "transfer (a drop after which completion is unreachable in the over-approximating product can never be recovered by the real handlers). On the pinned tree exactly the "
+      "ACK(EOF) cells fail (recorded: one lost ACK(EOF) is unrecoverable).",
       "trusted: as C10; the surrounding entity acknowledges EOFs of closed transactions as documented",
       "DESIGN.md section 2 C03")
 claim("C06",
